@@ -73,6 +73,8 @@ def _run_one(args: Tuple[str, str, int]) -> Dict[str, Any]:
         except SyntaxError as ex:
             return {"name": e.name, "status": "stale", "detail": f"edit does not parse: {ex}"}
         rules = sorted({f.rule for f in rep.findings})
+        if rep.undecided and err is None:
+            err = "undecided: " + "; ".join(rep.undecided[:2])
         return {"name": e.name, "status": "done", "rules": rules, "error": err,
                 "keys": [f.key for f in rep.findings][:4]}
     finally:
@@ -116,6 +118,7 @@ def run(prop: str, repo_root: str, rep: Report) -> None:
         "variants": sum(1 for t in table if t["kind"] == "variant" and t["status"] == "done"),
         "variants_silent": sum(1 for t in table if t.get("verdict") == "silent"),
         "stale": sum(1 for t in table if t["status"] == "stale"),
+        "stale_names": [t["edit"] for t in table if t["status"] == "stale"],
         "table": table,
     }
     print(f"selftest {prop}: " + ", ".join(f"{k}={v}" for k, v in rep.extra["selftest"].items() if k != "table"))
